@@ -6,6 +6,6 @@ CONSTANTS
  InitKinds = {"static","built"}
  Comparers = {21,22}
  EqReadsMemoValueFirst = FALSE
-INVARIANTS TypeOK RetOK MemoOK CloneOK EqCmpAgree EqIgnoresMemo
+INVARIANTS TypeOK RetOK MemoOK CloneOK TypeOKEq EqCmpAgree EqIgnoresMemo
 POSTCONDITION TraceAccepted
 CHECK_DEADLOCK FALSE
